@@ -241,6 +241,12 @@ theorem swapDraws_suffix : ∀ (n : Nat) (t r : Tape), swapDraws n t = .ok r →
       | accept _ _ => simp [swapDraws] at h
       | part _ _ => simp [swapDraws] at h
       | spiral _ => simp [swapDraws] at h
+      | sorted _ => simp [swapDraws] at h
+      | int _ => simp [swapDraws] at h
+      | npunif _ => simp [swapDraws] at h
+      | choice _ => simp [swapDraws] at h
+      | mutant _ => simp [swapDraws] at h
+      | parents _ => simp [swapDraws] at h
 
 theorem ptEvalMember_ok {cfg : PTCfg} {s s' : PopSt} {t1 : Tracker} {tape1 : Tape} {score : F} (hs1 : tape1 <:+ s.tape)
     (h : ptEvalMember cfg s t1 tape1 score = .ok s') :
